@@ -1288,6 +1288,7 @@ fn main() {
         }
     }
     let _ = (&mut n_parse_err, &mut n_errs_total);
+    cases.shard_size = ((cases.len() + 15) / 16).max(8);
     cases.write(&args.out);
     write_meta(&args.out, &json!({
         "evaluations": cases.len(),
